@@ -672,20 +672,24 @@ class Interp:
         """match / case restricted to class patterns without sub-patterns (`case str():`, `case Sequence():`), literal
         patterns and the wildcard: anything else is outside the subset"""
         subject = self.eval(st.subject)
+
+        def matches(pat):
+            if isinstance(pat, ast.MatchClass) and not pat.patterns and not pat.kwd_patterns:
+                return self.decide(self.builtins["isinstance"].fn(subject, self.eval(pat.cls)))
+            if isinstance(pat, ast.MatchAs) and pat.pattern is None:
+                if pat.name:
+                    self.frame.locals[pat.name] = subject
+                return True
+            if isinstance(pat, ast.MatchValue):
+                return self.decide(self.B.equal(self, subject, self.eval(pat.value)))
+            if isinstance(pat, ast.MatchOr):               # `case A() | B():` - alternatives tried left to right (no captures inside)
+                return any(matches(q) for q in pat.patterns)
+            raise Unsupported("match pattern " + type(pat).__name__)
         for case in st.cases:
             pat = case.pattern
             if case.guard is not None:
                 raise Unsupported("match guard")
-            if isinstance(pat, ast.MatchClass) and not pat.patterns and not pat.kwd_patterns:
-                ok = self.decide(self.builtins["isinstance"].fn(subject, self.eval(pat.cls)))
-            elif isinstance(pat, ast.MatchAs) and pat.pattern is None:
-                if pat.name:
-                    self.frame.locals[pat.name] = subject
-                ok = True
-            elif isinstance(pat, ast.MatchValue):
-                ok = self.decide(self.B.equal(self, subject, self.eval(pat.value)))
-            else:
-                raise Unsupported("match pattern " + type(pat).__name__)
+            ok = matches(pat)
             if ok:
                 self.exec_block(case.body)
                 return
